@@ -54,8 +54,10 @@ type Config struct {
 	DSEVersion     string   // non-empty: DSE backend
 	ReleaseVersion string
 	DC             string
-	NeverCompress  bool // never compress responses even when compression was negotiated
-	Lenient        bool // do not enforce version/compression fidelity rules
+	HostDCs        map[int]string // data center per host index (default: DC)
+	SlowLocal      time.Duration  // system.local is answered this much later than it could be (system.peers is not)
+	NeverCompress  bool           // never compress responses even when compression was negotiated
+	Lenient        bool           // do not enforce version/compression fidelity rules
 	Log            *mon.Log
 	MaxVersion     primitive.ProtocolVersion // highest version this backend accepts (0 = all)
 }
@@ -1138,7 +1140,17 @@ func encSet(items ...string) []byte {
 	return b.Bytes()
 }
 
+func (c *Cluster) dcOf(host int) string {
+	if dc, ok := c.cfg.HostDCs[host]; ok {
+		return dc
+	}
+	return c.cfg.DC
+}
+
 func (c *Cluster) systemRows(x *Conn, table string) message.Message {
+	if table == "local" && c.cfg.SlowLocal > 0 {
+		time.Sleep(c.cfg.SlowLocal)
+	}
 	dse := c.cfg.DSEVersion != ""
 	schema := primitive.UUID{1, 2, 3, 4, 5, 6, 0x47, 8, 0x89, 10, 11, 12, 13, 14, 15, 16}
 	if table == "local" {
@@ -1156,7 +1168,7 @@ func (c *Cluster) systemRows(x *Conn, table string) message.Message {
 			{Keyspace: "system", Table: "local", Name: "host_id", Type: datatype.Uuid},
 		}
 		u := hostUUID(x.Host.Idx)
-		row := message.Row{[]byte("local"), net.ParseIP(x.Host.IP).To4(), []byte(c.cfg.DC), []byte("rack1"),
+		row := message.Row{[]byte("local"), net.ParseIP(x.Host.IP).To4(), []byte(c.dcOf(x.Host.Idx)), []byte("rack1"),
 			encSet(fmt.Sprintf("%d", x.Host.Idx*1000)), []byte(c.cfg.ReleaseVersion), []byte("org.apache.cassandra.dht.Murmur3Partitioner"),
 			[]byte("fakecass"), []byte("3.4.5"), schema[:], u[:]}
 		if dse {
@@ -1182,7 +1194,7 @@ func (c *Cluster) systemRows(x *Conn, table string) message.Message {
 		}
 		u := hostUUID(i)
 		ip := net.ParseIP(c.HostIP(i)).To4()
-		rows = append(rows, message.Row{ip, ip, []byte(c.cfg.DC), []byte("rack1"), encSet(fmt.Sprintf("%d", i*1000)),
+		rows = append(rows, message.Row{ip, ip, []byte(c.dcOf(i)), []byte("rack1"), encSet(fmt.Sprintf("%d", i*1000)),
 			[]byte(c.cfg.ReleaseVersion), schema[:], u[:]})
 	}
 	return &message.RowsResult{Metadata: &message.RowsMetadata{ColumnCount: int32(len(cols)), Columns: cols}, Data: rows}
